@@ -350,6 +350,18 @@ func Send(method, rawurl string, options ...SendOption) (*http.Response, error) 
 		if err != nil ||
 			(isRetryable(resp.StatusCode) && !opts.acceptedCodes[resp.StatusCode]) ||
 			(opts.retry.extraCodes[resp.StatusCode]) {
+			// The attempt consumed the request body. Send a fresh copy of it
+			// with the next attempt, or stop retrying if it cannot be replayed.
+			if req.Body != nil && req.Body != http.NoBody {
+				if req.GetBody == nil {
+					break
+				}
+				body, berr := req.GetBody()
+				if berr != nil {
+					break
+				}
+				req.Body = body
+			}
 			d := opts.retry.backoff.NextBackOff()
 			if d == backoff.Stop {
 				break // Backoff timed out.
